@@ -136,6 +136,22 @@ def prov_relative_attr(repo, tier="quick"):
                       reason="node references survive the renumbering")) if ok else
      obs.append(ob_fail(oid, fi, construct="remapping of relative attributes", instance="remap",
                         reason="node-referencing attributes are not translated through the relabelling map and written back")))
+    # the entries are read from the relabelled graph (they are written back to it under the same keys)
+    graph_p = ("param", fi.positional_params[0])
+    for n in cfg.nodes:
+        if n.kind == "for":
+            it = strip_wrappers(fl.canon(n.ast.iter, n.id))
+            m = method_call(it, "items")
+            c = is_call(m[0], "networkx.get_node_attributes") if m else None
+            if c and c[0] and len(c[0]) >= 2 and elem_of(c[0][1]) is not None or (c and c[0] and len(c[0]) >= 2 and c[0][1][0] == "sub"):
+                src = c[0][0]
+                if src == R:
+                    obs.append(ob_ok(oid, fi, n.ast, construct="entries read from the relabelled graph", instance="source-graph",
+                                     reason="keys of the entries are the new node keys, the ones the values are written back under"))
+                elif src == graph_p:
+                    obs.append(ob_fail(oid, fi, n.ast, construct="entries read from the graph before relabelling", instance="source-graph",
+                                       reason="the entries are keyed by the old node keys but written to the relabelled graph: the translated references land on "
+                                              "unrelated atoms and the real carrier keeps stale ones"))
     # inside, every entry of the attribute is rewritten (no path through an iteration skips the store)
     for n in cfg.nodes:
         if n.kind == "for":
@@ -807,7 +823,7 @@ def tt_relative_dispatch(repo, tier="quick"):
             it = strip_wrappers(fl.canon(n.ast.iter, n.id))
             m = method_call(it, "items")
             c = is_call(m[0], "networkx.get_node_attributes") if m else None
-            if c and c[0] and c[0][0] == R:
+            if c and c[0] and c[0][0] in (R, ("param", fi.positional_params[0])):
                 loop = n
     need(loop is not None, "anchor vanished: no loop over the entries of a relative attribute", fi)
     tgt = loop.ast.target
